@@ -1065,6 +1065,140 @@ mod e2e {
     }
 }
 
+// ------------------------------------------------------------------------------------------------ h3 against a raw peer
+/// C14 over the real adapter: a real h3 endpoint (client or server, over h3-quinn) talks to a RAW Quinn peer whose flow-control
+/// windows are tiny, so that Quinn takes h3's writes a few bytes at a time and blocks in the middle of frames.  The raw peer
+/// records every byte it reads per stream; the events are the simulator's `wrote` / `h3_fin`, judged by C14_Trace.
+mod h3raw {
+    use super::*;
+    use crate::sim::pat as spat;
+
+    fn body(off: &mut u64, n: usize) -> Bytes {
+        let o = *off;
+        *off += n as u64;
+        Bytes::from((0..n).map(|i| spat(o + i as u64)).collect::<Vec<u8>>())
+    }
+
+    /// reads a stream until FIN (or until nothing arrives for `idle`): (bytes, fin)
+    async fn drain(mut r: quinn::RecvStream, idle: Duration) -> (Vec<u8>, bool) {
+        let mut out = vec![];
+        let mut buf = vec![0u8; 4096];
+        loop {
+            match tokio::time::timeout(idle, r.read(&mut buf)).await {
+                Ok(Ok(Some(k))) => out.extend_from_slice(&buf[..k]),
+                Ok(Ok(None)) => return (out, true),
+                Ok(Err(_)) => return (out, false),
+                Err(_) => return (out, false),
+            }
+        }
+    }
+
+    pub async fn run_scenario(certs: &Certs, scn: &Value) -> Result<Vec<Value>, String> {
+        let w = scn["win"]["stream"].as_u64().unwrap_or(64);
+        let is_client = scn["role"].as_str().unwrap_or("client") == "client";
+        // the raw peer's windows are the tiny ones
+        let raw_t = transport(w, 0, 0, 0);
+        let h3_t = transport(0, 0, 0, 0);
+        let (c, s, cep, sep) = if is_client { connect(certs, raw_t, h3_t).await? } else { connect(certs, h3_t, raw_t).await? };
+        let (h3q, raw) = if is_client { (c, s) } else { (s, c) };
+        let pieces: Vec<usize> = scn["body"].as_array().map(|a| a.iter().map(|x| x.as_u64().unwrap_or(0) as usize).collect()).unwrap_or_default();
+        let net = if is_client { "c" } else { "s" };
+        let mut log = vec![json!({"ev": "reset", "scn": scn["id"], "role": if is_client { "client" } else { "server" }, "cfg": {}, "meta": {}, "wt": false})];
+        let mut streams: Vec<(u64, Vec<u8>, bool)> = vec![];
+        if is_client {
+            let h3task = tokio::spawn(async move {
+                let (mut driver, mut sender) = h3::client::builder().build::<_, _, Bytes>(h3_quinn::Connection::new(h3q)).await.ok()?;
+                let drive = tokio::spawn(async move {
+                    let _ = std::future::poll_fn(|cx| driver.poll_close(cx)).await;
+                });
+                let mut st = sender.send_request(http::Request::post("https://a/").body(()).unwrap()).await.ok()?;
+                let mut off = 0u64;
+                for n in pieces {
+                    st.send_data(body(&mut off, n)).await.ok()?;
+                }
+                st.finish().await.ok()?;
+                // keep everything alive until the raw peer is done
+                tokio::time::sleep(Duration::from_millis(300)).await;
+                drop(st);
+                drop(sender);
+                drive.abort();
+                Some(())
+            });
+            // raw server: the request stream first (to FIN), then whatever the unidirectional streams carried
+            if let Ok(Ok((_snd, rcv))) = tokio::time::timeout(CAP, raw.accept_bi()).await {
+                let id: u64 = rcv.id().into();
+                let (b, fin) = drain(rcv, CAP).await;
+                streams.push((id, b, fin));
+            }
+            while let Ok(Ok(rcv)) = tokio::time::timeout(Duration::from_millis(50), raw.accept_uni()).await {
+                let id: u64 = rcv.id().into();
+                let (b, fin) = drain(rcv, Duration::from_millis(50)).await;
+                streams.push((id, b, fin));
+            }
+            let _ = h3task.await;
+        } else {
+            let h3task = tokio::spawn(async move {
+                let mut conn: h3::server::Connection<h3_quinn::Connection, Bytes> = h3::server::builder().build(h3_quinn::Connection::new(h3q)).await.ok()?;
+                let resolver = conn.accept().await.ok()??;
+                let handler = tokio::spawn(async move {
+                    let (_rq, mut st) = resolver.resolve_request().await.ok()?;
+                    st.send_response(http::Response::builder().status(200).body(()).unwrap()).await.ok()?;
+                    let mut off = 0u64;
+                    for n in pieces {
+                        st.send_data(body(&mut off, n)).await.ok()?;
+                    }
+                    st.finish().await.ok()?;
+                    tokio::time::sleep(Duration::from_millis(300)).await;
+                    Some(())
+                });
+                let _ = tokio::time::timeout(Duration::from_secs(10), async {
+                    loop {
+                        match conn.accept().await {
+                            Ok(Some(_)) => {}
+                            _ => break,
+                        }
+                    }
+                })
+                .await;
+                let _ = handler.await;
+                Some(())
+            });
+            // raw client: control stream with SETTINGS, one request, then read the response to FIN
+            if let Ok(mut ctl) = raw.open_uni().await {
+                let _ = ctl.write_all(&[0, 4, 0]).await;
+                std::mem::forget(ctl); // never closed
+            }
+            if let Ok((mut snd, rcv)) = raw.open_bi().await {
+                // HEADERS { :method GET, :scheme https, :authority a, :path / }
+                let _ = snd.write_all(&[1, 8, 0, 0, 209, 215, 80, 1, 97, 193]).await;
+                let _ = snd.finish();
+                let id: u64 = rcv.id().into();
+                let (b, fin) = drain(rcv, CAP).await;
+                streams.push((id, b, fin));
+            }
+            while let Ok(Ok(rcv)) = tokio::time::timeout(Duration::from_millis(50), raw.accept_uni()).await {
+                let id: u64 = rcv.id().into();
+                let (b, fin) = drain(rcv, Duration::from_millis(50)).await;
+                streams.push((id, b, fin));
+            }
+            raw.close(VarInt::from_u32(0x100), b"done");
+            let _ = h3task.await;
+        }
+        for (id, b, fin) in streams {
+            if !b.is_empty() {
+                log.push(json!({"ev": "wrote", "net": net, "sid": id, "bytes": jbytes(&b), "ut": b[0]}));
+            }
+            if fin {
+                log.push(json!({"ev": "h3_fin", "net": net, "sid": id, "implicit": false}));
+            }
+        }
+        log.push(json!({"ev": "quiesce", "pending": [], "closes": [], "unread": []}));
+        cep.close(VarInt::from_u32(0), b"done");
+        sep.close(VarInt::from_u32(0), b"done");
+        Ok(log)
+    }
+}
+
 pub fn run(inp: &str, out: &str) -> Result<(), String> {
     let r = BufReader::new(std::fs::File::open(inp).map_err(|e| format!("{inp}: {e}"))?);
     let mut w = BufWriter::new(std::fs::File::create(out).map_err(|e| format!("{out}: {e}"))?);
@@ -1078,7 +1212,9 @@ pub fn run(inp: &str, out: &str) -> Result<(), String> {
         let scn: Value = serde_json::from_str(&line).map_err(|e| format!("scenario: {e}"))?;
         // a panic inside the adapter (outside the calls that are guarded individually) is data, not a tool failure
         let r = catch_unwind(AssertUnwindSafe(|| {
-            if scn["fam"] == "E2E" {
+            if scn["fam"] == "H3RAW" {
+                rt.block_on(h3raw::run_scenario(&certs, &scn))
+            } else if scn["fam"] == "E2E" {
                 rt.block_on(e2e::run_scenario(&certs, &scn))
             } else {
                 rt.block_on(run_scenario(&certs, &scn))
@@ -1089,7 +1225,9 @@ pub fn run(inp: &str, out: &str) -> Result<(), String> {
             Err(e) => {
                 rt = tokio::runtime::Builder::new_current_thread().enable_all().build().map_err(|e| e.to_string())?;
                 vec![
-                    if scn["fam"] == "E2E" {
+                    if scn["fam"] == "H3RAW" {
+                        json!({"ev": "reset", "scn": scn["id"], "role": scn["role"], "cfg": {}, "meta": {}, "wt": false})
+                    } else if scn["fam"] == "E2E" {
                         json!({"ev": "reset", "scn": scn["id"], "role": "pair", "cfg": {}, "meta": {"req": scn["req"], "resp": scn["resp"]}, "wt": false})
                     } else {
                         json!({"ev": "reset", "scn": scn["id"], "a_role": scn["a_role"].as_str().unwrap_or("client"), "win": {"stream": 0, "conn": 0, "send": 0}, "idle_ms": 0})
